@@ -12,6 +12,20 @@ REPO = os.environ.get("VERIF_REPO", "/repo")
 REPO_SRC = os.path.join(REPO, "src")
 DEPS = os.path.join(VERIF_DIR, ".deps")
 
+# VIRTUAL TIME. time.monotonic() / time.perf_counter() run ahead of the real clocks by FAKE_CLOCK[0] seconds; scripted
+# receive timeouts (vf.doubles.ScriptedSocket) advance it by 45 s each. Installed here, i.e. before pyrtcm is imported,
+# so that `from time import monotonic` inside the code under test sees it too. Code that (wrongly) lets wall-clock
+# silences decide what happens to buffered data meets long silences without any check waiting for them. time.time()
+# is left alone (the runner measures wall time with it).
+import time as _time
+
+FAKE_CLOCK = [0.0]
+if not getattr(_time, "_vf_virtual", False):
+    _real_monotonic, _real_perf = _time.monotonic, _time.perf_counter
+    _time.monotonic = lambda: _real_monotonic() + FAKE_CLOCK[0]
+    _time.perf_counter = lambda: _real_perf() + FAKE_CLOCK[0]
+    _time._vf_virtual = True
+
 sys.dont_write_bytecode = True
 if REPO_SRC in sys.path:
     sys.path.remove(REPO_SRC)
